@@ -218,6 +218,14 @@ def _(self, value: Int, minimum: Int, maximum: Int, number_of_bits: Nat):
                     and self.value % 256 == value - minimum))
     ensures(implies(256 < maximum - minimum + 1 and maximum - minimum + 1 <= 65536,
                     (self.chunks_number_of_bits + self.number_of_bits) % 8 == 0 and self.value % 65536 == value - minimum))
+    # exact size of the aligned forms: fewer than 8 padding bits, then one / two octets
+    ensures(implies(maximum - minimum + 1 == 256,
+                    self.number_of_bits == old(self.number_of_bits)
+                    + (8 - (old(self.chunks_number_of_bits) + old(self.number_of_bits)) % 8) % 8 + 8))
+    ensures(implies(256 < maximum - minimum + 1 and maximum - minimum + 1 <= 65536,
+                    self.number_of_bits == old(self.number_of_bits)
+                    + (8 - (old(self.chunks_number_of_bits) + old(self.number_of_bits)) % 8) % 8 + 16))
+    ensures(self.number_of_bits >= old(self.number_of_bits))
 
 
 @contract("Encoder.append_unconstrained_whole_number", props=["C05", "C01"])
